@@ -75,6 +75,7 @@ fn err_code(e: &ChainError) -> u64 {
             }
         }
         ChainError::InvalidHash { .. } => 2,
+        ChainError::ConflictDetected { .. } => 24,
         ChainError::BlockNotFound(_) => 8,
         ChainError::EmptyChain => 9,
         ChainError::TransactionFailed(m) => {
@@ -1016,6 +1017,103 @@ fn main() {
         conc.push(&t, &format!("prefix={:?} concurrent={:?} start_order={:?} hook={} results={:?}", pre_blocks, wss, order, use_hook, res), true);
     }
 
+    // ---- merge: commits of workspaces that carry embeddings (conflict detection + auto-merge), sequential and
+    // concurrent; implementation-only oracle (kind merge)
+    let mut merge = CaseWriter::new(&args.out, "merge");
+    let nmerge = args.budget(40, 1200);
+    for mi in 0..nmerge {
+        let kk = 6u64;
+        let auto = mi % 3 != 0;
+        let c = mk(next_seed(), 8, 0, auto);
+        let mut uniq = 0u8;
+        let nws = rng.range(2, 4) as usize;
+        let wss: Vec<Vec<Tx>> = (0..nws)
+            .map(|_| {
+                let ntx = if rng.chance(1, 8) { 0 } else { rng.range(1, 2) as usize };
+                let kr = if rng.chance(1, 2) { 2 } else { kk };
+                gen_txs_unique(&mut rng, kr, ntx, &mut uniq)
+            })
+            .collect();
+        // embedding direction per workspace: None = no embedding; equal directions conflict, different ones are orthogonal
+        let dirs: Vec<Option<usize>> = (0..nws).map(|_| if rng.chance(1, 5) { None } else { Some(rng.below(3) as usize) }).collect();
+        let works: Vec<Arc<TransactionWorkspace>> = wss
+            .iter()
+            .zip(&dirs)
+            .map(|(l, d)| {
+                let w = c.chain.begin().unwrap();
+                for t in l {
+                    w.add_operation(t.real()).unwrap();
+                }
+                if let Some(d) = d {
+                    let before = vec![0.0f32; 128];
+                    let mut after = vec![0.0f32; 128];
+                    after[*d * 7] = 1.0 + rng.below(3) as f32;
+                    w.set_before_embedding(&before);
+                    w.compute_delta(&after);
+                }
+                w
+            })
+            .collect();
+        let concurrent = mi % 2 == 1;
+        let mut order: Vec<usize> = (0..nws).collect();
+        rng.shuffle(&mut order);
+        if rng.chance(1, 3) {
+            order.truncate(nws - 1); // somebody never calls commit (may still be absorbed by a merge)
+        }
+        let res: Arc<Mutex<Vec<u64>>> = Arc::new(Mutex::new(vec![98; nws]));
+        if concurrent {
+            let bar = Arc::new(Barrier::new(order.len()));
+            let hs: Vec<_> = order
+                .iter()
+                .map(|&i| {
+                    let ch = c.chain.clone();
+                    let w = works[i].clone();
+                    let res = res.clone();
+                    let bar = bar.clone();
+                    std::thread::spawn(move || {
+                        bar.wait();
+                        let r = ch.commit(&w);
+                        res.lock().unwrap()[i] = code(&r);
+                    })
+                })
+                .collect();
+            for h in hs {
+                let _ = h.join();
+            }
+        } else {
+            for &i in &order {
+                let r = c.chain.commit(&works[i]);
+                res.lock().unwrap()[i] = code(&r);
+            }
+        }
+        let res = res.lock().unwrap().clone();
+        let comm: Vec<bool> = works.iter().map(|w| w.state() == tensor_chain::TransactionState::Committed).collect();
+        let n = c.chain.height();
+        let chain_txs: Vec<Vec<Tx>> = (1..=n).map(|h| c.block(h).map(|b| b.transactions.iter().filter_map(Tx::of).collect()).unwrap_or_default()).collect();
+        let merged_blocks = chain_txs.iter().filter(|b| wss.iter().filter(|l| !l.is_empty() && b.len() > l.len() && b.windows(l.len()).any(|w| w == &l[..])).count() >= 2).count();
+        dist.hit(&format!("merge.auto_{}.{}", auto, if concurrent { "concurrent" } else { "sequential" }));
+        dist.add("merge.blocks_holding_several_workspaces", merged_blocks as u64);
+        for r in &res {
+            dist.hit(&format!("merge.result.{r}"));
+        }
+        let t = format!(
+            "({}, ({}, {}, {}, {}, {}, {}, {}))",
+            c.extra,
+            kk,
+            list(wss.iter().map(|l| txs_coq(l))),
+            list(comm.iter().map(|x| b(*x))),
+            list(res.iter().map(|x| n_(*x))),
+            list(chain_txs.iter().map(|l| txs_coq(l))),
+            c.ver(),
+            dump_coq(&c.dump(kk))
+        );
+        merge.push(
+            &t,
+            &format!("auto_merge={} concurrent={} workspaces={:?} directions={:?} commit_order={:?} results={:?} committed={:?} blocks={:?}", auto, concurrent, wss, dirs, order, res, comm, chain_txs),
+            comm.iter().filter(|x| **x).count() >= 2,
+        );
+    }
+
     // ---- replay: the same blocks on two replicas
     // mode "shared" = production wiring (cluster.rs, every test of the crate): chain records and state in ONE
     // store, blocks produced by a leader TensorChain; mode "separate" = state in its own store, blocks built by the
@@ -1185,10 +1283,10 @@ fn main() {
         &args.out,
         json!({
             "property": "C16", "seed": args.seed, "tier": args.tier,
-            "kinds": [seq.summary(), layout.summary(), tamper.summary(), conc.summary(), replay.summary()],
+            "kinds": [seq.summary(), layout.summary(), tamper.summary(), conc.summary(), merge.summary(), replay.summary()],
             "distribution": dist.json(),
             "hits": hits.0,
-            "nontrivial_rule": "seq: >= 3 calls with at least one successful commit; tamper: every case (a mutated stored block); conc: every case (>= 2 concurrent commits); replay: at least one block accepted; layout: a non-genesis committed header or a crafted one with codes/embedding",
+            "nontrivial_rule": "seq: >= 3 calls with at least one successful commit; tamper: every case (a mutated stored block); conc: every case (>= 2 concurrent commits); merge: at least two workspaces end Committed; replay: at least one block accepted; layout: a non-genesis committed header or a crafted one with codes/embedding",
         }),
     );
 }
